@@ -27,6 +27,26 @@ def _one(arg):
     img = os.path.join(workdir, "c%d.img" % cid)
     fsckpair.materialise(case, u.paths[case.image], img)
     r = fsckpair.repair_pair(e2fsck, env, img, workdir, "c%d" % cid)
+
+    def claimed(x):
+        return x["rc1"] is not None and not (x["rc1"] & fsckpair.CLAIMS_SUCCESS_MASK) and \
+            not x["timed_out"] and not x.get("sig1")
+
+    if claimed(r) and r["rc2"] not in (None, 0) and len(case.op_patches) > 1:
+        # reduce to a 1-minimal set of corruptions that still does not converge
+        def still(c2):
+            fsckpair.materialise(c2, u.paths[c2.image], img)
+            r2 = fsckpair.repair_pair(e2fsck, env, img, workdir, "m%d" % cid)
+            return claimed(r2) and r2["rc2"] not in (None, 0)
+        small = fsckpair.minimise_case(u, case, "all", still)
+        if small is not case:
+            fsckpair.materialise(small, u.paths[small.image], img)
+            r = fsckpair.repair_pair(e2fsck, env, img, workdir, "c%d" % cid)
+            if claimed(r) and r["rc2"] not in (None, 0):
+                case = small
+            else:       # flaky reduction: fall back to the full case
+                fsckpair.materialise(case, u.paths[case.image], img)
+                r = fsckpair.repair_pair(e2fsck, env, img, workdir, "c%d" % cid)
     out = {"cid": cid, "cls": case.cls, "image": case.image, "descr": case.descr,
            "rc1": r["rc1"], "rc2": r["rc2"], "codes1": r["codes1"], "codes2": r["codes2"],
            "timed_out": r["timed_out"], "sig1": r.get("sig1"), "out2": r["out2"][-600:]}
@@ -89,8 +109,7 @@ def main(tier, seed, replay=None, scale=1.0):
                 rep.sample({"cid": r["cid"], "image": r["image"], "corruption": r["descr"],
                             "fy_exit": r["rc1"], "fy_problem_codes": r["codes1"][:8], "fn_exit": r["rc2"]})
             if r["rc2"] != 0:
-                kinds = "+".join(sorted(set(k.split(".")[0] for k in r["cls"].split("+"))))
-                key = "C01 %s -> %s" % (kinds, ",".join(r["codes2"]) or "exit%s" % r["rc2"])
+                key = "C01 %s -> %s" % (r["cls"], ",".join(r["codes2"]) or "exit%s" % r["rc2"])
                 rep.violation(key, "e2fsck -fy exit %s then e2fsck -fn exit %s on %s cid %d: %s\n%s" %
                               (r["rc1"], r["rc2"], r["image"], r["cid"], r["descr"], r["out2"]),
                               replay={"cid": r["cid"], "image": r["image"], "descr": r["descr"],
